@@ -620,3 +620,9 @@ func rawHist(depth int) {
 var RaceBodies = map[string]func(){
 	"c07-newsurvey-vs-response": schedNewSurvey,
 }
+
+
+// SchedExpiry / SchedNewSurvey are also run under C16: a response that arrives exactly while its
+// survey expires or is superseded must not bring the socket down.
+func SchedExpiry()    { schedExpiry() }
+func SchedNewSurvey() { schedNewSurvey() }
